@@ -152,6 +152,28 @@ def run(ctx: Ctx):
     # ---- S5 both batching strategies honour the same loader options ----------------------------------------------
     _strategy_arms(ctx, rel)
 
+    # ---- S5b every loader hands its bucket-parameter helper the same four things: its data set, the number of buckets, the batch size
+    # and the dynamic-sizing flag `size_batch_by_length` (a neighbouring boolean such as drop_last has the same type and shape)
+    bpf = pkg.func(f"{MOD}::_get_bucket_batch_sampler_params")
+    n_bp = 0
+    for fcaller in pkg.all_functions():
+        if fcaller.module.relname != rel:
+            continue
+        for c in own_calls(fcaller.node):
+            if call_name(c) != "_get_bucket_batch_sampler_params":
+                continue
+            n_bp += 1
+            b_ = bind_args(c, bpf, False)
+            dyn = b_.arg_for(bpf.params[3].name)
+            bs_ = b_.arg_for(bpf.params[2].name)
+            okd = dyn is not None and u(dyn).split(".")[-1] == "size_batch_by_length"
+            okb = bs_ is not None and u(bs_).split(".")[-1] == "batch_size"
+            col.ob("G1", "S5", f"{rel}::{fcaller.qualname}::_get_bucket_batch_sampler_params(dynamic<-size_batch_by_length)", okd and okb,
+                   f"`{u(c)[:110]}` passes `{u(dyn) if dyn is not None else None}` as the dynamic-sizing flag and `{u(bs_) if bs_ is not None else None}` as the "
+                   f"batch size; expected the loader's size_batch_by_length and batch_size: with another flag in that slot the per-bucket "
+                   f"batch sizes no longer follow the configured map", rel, c.lineno)
+    col.floor("bucket_parameter_calls", n_bp, 2)
+
     # ---- S2d the utterance sampler reports as many indices as it yields (non-bucketed loaders compute len() from it) ----
     _sampler_len(ctx, rel)
     plumbing(ctx, "S1")
